@@ -3,6 +3,8 @@ package main
 // C14: alpha passes through exactly; linearised pixels stay validly premultiplied.
 
 import (
+	"image/draw"
+	"image"
 	"fmt"
 	"image/color"
 	"math"
@@ -239,6 +241,73 @@ func init() {
 					}
 				}
 				c.res.Evaluations += a + 1
+			}
+		}
+		// the image API: every 8-bit and a sweep of 16-bit alphas through LineariseImage / EncodeImage of every
+		// space into every destination kind; the alpha bytes must come out unchanged and channels <= alpha
+		for _, tc := range transformCases() {
+			if !strings.Contains(tc.name, "Image") {
+				continue
+			}
+			src8 := image.NewRGBA(image.Rect(0, 0, 256, 1))
+			for a := 0; a < 256; a++ {
+				src8.SetRGBA(a, 0, color.RGBA{uint8(a / 2), uint8(a), uint8(a / 3), uint8(a)})
+			}
+			src16 := image.NewRGBA64(image.Rect(0, 0, 4096, 1))
+			for i := 0; i < 4096; i++ {
+				a := uint16(i*16 + (i*7)%16)
+				src16.SetRGBA64(i, 0, color.RGBA64{a / 2, a, a / 5, a})
+			}
+			for _, dk := range []string{"RGBA", "NRGBA", "RGBA64", "NRGBA64"} {
+				for _, src := range []image.Image{src8, src16} {
+					var dst draw.Image
+					switch dk {
+					case "RGBA":
+						dst = image.NewRGBA(src.Bounds())
+					case "NRGBA":
+						dst = image.NewNRGBA(src.Bounds())
+					case "RGBA64":
+						dst = image.NewRGBA64(src.Bounds())
+					default:
+						dst = image.NewNRGBA64(src.Bounds())
+					}
+					// a reused destination still holding other data
+					switch d := dst.(type) {
+					case *image.RGBA:
+						for i := range d.Pix {
+							d.Pix[i] = 0xaa
+						}
+					case *image.NRGBA:
+						for i := range d.Pix {
+							d.Pix[i] = 0xaa
+						}
+					case *image.RGBA64:
+						for i := range d.Pix {
+							d.Pix[i] = 0xaa
+						}
+					case *image.NRGBA64:
+						for i := range d.Pix {
+							d.Pix[i] = 0xaa
+						}
+					}
+					tc.run(dst, src, 3)
+					b := src.Bounds()
+					for x := b.Min.X; x < b.Max.X; x++ {
+						_, _, _, wa := src.At(x, 0).RGBA()
+						r, g, bl, ga := dst.At(x, 0).RGBA()
+						if dk == "RGBA" || dk == "NRGBA" {
+							wa = (wa >> 8) * 0x101
+						}
+						c.res.count("image-alpha", fmt.Sprint(tc.name, dk, x, b.Dx()), wa > 0)
+						// (only linearising is claimed to keep channels <= alpha: encoding applies the transfer function
+						// to the premultiplied value, which may exceed alpha - not a C14 clause)
+						if ga != wa || (strings.Contains(tc.name, "Linearise") && strings.HasPrefix(dk, "RGBA") && (r > ga || g > ga || bl > ga)) {
+							c.res.fail(Failure{Class: "C14:image-alpha:" + dk, Desc: fmt.Sprintf("%s into a %s destination changed the alpha of a pixel (or left a channel above alpha)", tc.name, dk),
+								Input: map[string]interface{}{"transform": tc.name, "dst": dk, "src_pixel": fmt.Sprint(src.At(x, 0))}, Got: fmt.Sprint(dst.At(x, 0)), Want: fmt.Sprintf("alpha %#x", wa)})
+							break
+						}
+					}
+				}
 			}
 		}
 		if st := writeXCheck(gdir, "From Coq Require Import ZArith.\nFrom PrismV Require Import Num.Quant Num.Reps Num.Premul."); st != nil {
